@@ -105,9 +105,10 @@ SILENT_EDITS = [   # behaviour-preserving, all exit 0
 
 
 def run(ctx):
-    from ..rules import parlists, sC31, s4C31
+    from ..rules import parlists, sC31, s4C31, dD2
     sym = sC31.Sym(ctx)
-    # s4C31.rule_suborder(ctx, sym)  # pending finding (/tmp/strengthen6/I3/FINDING_1.md): keyword sub-patterns of a class pattern are matched before the positional ones on the unmodified tree
+    # s4C31.rule_suborder(ctx, sym): armed after the repair 1166a8980 (keyword sub-patterns of a class pattern were matched before the positional ones on the unmodified tree)
+    # dD2.rule_tempdef / rule_selfkw / rule_dupguard: armed after the repairs 3a6140f2e, 557d1232b, c9e7a10b7 (or-pattern temp inside a sequence, int(x, real=r), duplicate-key check order)
     # sC31.rule_nullpath(ctx): armed after the repair 0d41e88f0 (it reported __Pyx__MatchCase_ClassPositional of the unmodified tree, see FINDING_1)
     # sC31.rule_asbind(ctx, sym): armed after the repair 423ab91e8 (`case 1.0 as x` binds the literal instead of the subject, see FINDING_3)
     return [pC31.rule_hooks(ctx), pC31.rule_temps(ctx), typed.rule_I3(ctx, modules=('MatchCaseNodes',), floor=10),
@@ -115,4 +116,5 @@ def run(ctx):
             sC31.rule_sentinel(ctx), sC31.rule_unchecked(ctx), sC31.rule_absent(ctx, sym), sC31.rule_cover(ctx), sC31.rule_capacity(ctx), sC31.rule_valid(ctx, sym),
             sC31.rule_tpflags(ctx, sym), sC31.rule_pair(ctx, sym), sC31.rule_altnum(ctx, sym), sC31.rule_seq(ctx, sym), sC31.rule_valop(ctx, sym),
             sC31.rule_refactor(ctx, sym), sC31.rule_exit(ctx, sym), sC31.rule_none(ctx, sym), sC31.rule_dictonly(ctx, sym), sC31.rule_slice(ctx), sC31.rule_once(ctx, sym), sC31.rule_setuse(ctx), sC31.rule_cfg(ctx), sC31.rule_tristate(ctx), sC31.rule_parse(ctx),
-            s4C31.rule_probe(ctx, sym), s4C31.rule_exact(ctx)]
+            s4C31.rule_probe(ctx, sym), s4C31.rule_exact(ctx), s4C31.rule_suborder(ctx, sym),
+            dD2.rule_tempdef(ctx, sym), dD2.rule_selfkw(ctx, sym), dD2.rule_dupguard(ctx, sym)]
